@@ -732,7 +732,6 @@ def child_solver(arg):
       except Exception as e:  # pylint: disable=broad-except
         mon.viol(f"Solver.solve raised {type(e).__name__} on a well-formed system (terms from the "
                  f"public constructors)", error=repr(e))
-        mon.violations[-1]["system"] = ops
         continue
       n_sys += 1
       nvars = sum(1 for o in ops if o[0] == "var")
@@ -839,7 +838,8 @@ def _tasks(tier, seed):
   rng = random.Random(f"{PID}-{seed}")
   tasks = []
 
-  def add(arg, tid, hs, timeout=3000):
+  def add(arg, tid, hs, timeout=None):
+    timeout = timeout or (900 if tier == "quick" else 3000)
     arg = dict(arg)
     arg["hashseed"] = hs
     arg.setdefault("seed", rng.randrange(1 << 30))
@@ -849,7 +849,7 @@ def _tasks(tier, seed):
   quick = tier == "quick"
   plan = {}
   # --- small universe: complete to level 3, every result simplified against every table
-  nsh = 9 if quick else 12
+  nsh = 6 if quick else 12
   for hs in HASHSEEDS:
     add({"universe": "2x2", "what": "low", "simplify_upto": 2, "count_nontrivial": hs == "0"}, f"2x2/low/hs{hs}", hs)
   for s in range(nsh):
@@ -861,7 +861,7 @@ def _tasks(tier, seed):
   # --- 3x3 universe: levels 0-2 complete with all 343 tables
   for hs in HASHSEEDS:
     add({"universe": "3x3", "what": "low", "count_nontrivial": hs == "0"}, f"3x3/low/hs{hs}", hs)
-  nsh = 15 if quick else 16
+  nsh = 12 if quick else 16
   for s in range(nsh):
     seeds = [HASHSEEDS[s % 3]] if quick else HASHSEEDS
     for hs in seeds:
@@ -869,12 +869,12 @@ def _tasks(tier, seed):
            "count_nontrivial": hs == seeds[0]}, f"3x3/simplify2/{s}/hs{hs}", hs)
   # --- 3x3 level 3
   if quick:
-    nsh = 12
+    nsh = 9
     for s in range(nsh):
-      add({"universe": "3x3", "what": "sample3", "shard": s, "nshards": nsh, "count": 60000,
+      add({"universe": "3x3", "what": "sample3", "shard": s, "nshards": nsh, "count": 50000,
            "simplify_every": 4}, f"3x3/sample3/{s}", HASHSEEDS[s % 3])
     plan["3x3"] = ("levels 0-2 over ordered pairs, every level<=2 term x all 343 tables; level 3: "
-                   "720000 sampled ordered pairs")
+                   "450000 sampled ordered pairs")
   else:
     nsh = 96
     for s in range(nsh):
@@ -884,7 +884,7 @@ def _tasks(tier, seed):
                    "unordered pair of level-2 terms (argument order by index parity), 1/24 of the results "
                    "simplified against one table")
   # --- Layer A
-  nb, cnt = (9, 400) if quick else (24, 2500)
+  nb, cnt = (6, 500) if quick else (24, 2500)
   for b in range(nb):
     add({"what": "solver", "count": cnt}, f"solver/{b}", HASHSEEDS[b % 3])
   return tasks, plan
